@@ -919,7 +919,11 @@ func init() {
 				return nil
 			}
 			if r.WantErr {
-				// a dangling link or a link loop: an error is the right answer (no crash, see above)
+				// a dangling link or a link loop: an error is the right answer (no crash, see above); an absolute path
+				// that is not clean may also come back exactly as written (absolute paths are left as written)
+				if r.First != nil && r.Unclean && *r.First == a.Path {
+					return nil
+				}
 				if r.First != nil {
 					return core.Fail("symlink:"+a.Name+":no-error", fmt.Sprintf("watch path %q goes through a broken symbolic link but resolves to %s", a.Path, *r.First))
 				}
